@@ -57,7 +57,9 @@ func (b *BasePathFs) RealPath(name string) (path string, err error) {
 
 	bpath := filepath.Clean(b.path)
 	path = filepath.Clean(filepath.Join(bpath, name))
-	if !strings.HasPrefix(path, bpath) {
+	// the result must be the base itself or lie below it: a plain string-prefix test would
+	// also accept siblings whose names merely start with the base's name (/base2 for /base)
+	if path != bpath && !strings.HasPrefix(path, strings.TrimSuffix(bpath, FilePathSeparator)+FilePathSeparator) {
 		return name, os.ErrNotExist
 	}
 
